@@ -1,0 +1,89 @@
+//go:build verif
+
+package s2
+
+// Exported thin wrappers for the model-based verification harness in /verif
+// (spec/Iterators.tla, spec/Gen_IterRegions.tla): the priority queue of the
+// distance queries (queryQueue, query_entry.go) with the two distance flavours,
+// and a ShapeIndex whose set of index cells is given directly, so that
+// ShapeIndexRegion.CellUnionBound can be driven as a function of the index
+// cells.  This file is only compiled with the "verif" build tag and adds no
+// behaviour.
+
+import (
+	"sort"
+
+	"github.com/golang/geo/s1"
+)
+
+// VerifDistance builds a distance of the min-distance (furthest = false) or
+// max-distance (furthest = true) flavour from a chord angle.
+func VerifDistance(furthest bool, c s1.ChordAngle) VerifDist {
+	if furthest {
+		return VerifDist{maxDistance(c)}
+	}
+	return VerifDist{minDistance(c)}
+}
+
+// VerifDist wraps a value of the unexported distance interface.
+type VerifDist struct{ d distance }
+
+// ChordAngle calls distance.chordAngle.
+func (v VerifDist) ChordAngle() s1.ChordAngle { return v.d.chordAngle() }
+
+// Less calls distance.less.
+func (v VerifDist) Less(o VerifDist) bool { return v.d.less(o.d) }
+
+// Zero calls distance.zero.
+func (v VerifDist) Zero() VerifDist { return VerifDist{v.d.zero()} }
+
+// Infinity calls distance.infinity.
+func (v VerifDist) Infinity() VerifDist { return VerifDist{v.d.infinity()} }
+
+// Negative calls distance.negative.
+func (v VerifDist) Negative() VerifDist { return VerifDist{v.d.negative()} }
+
+// Furthest reports whether the value has the max-distance flavour.
+func (v VerifDist) Furthest() bool {
+	_, ok := v.d.(maxDistance)
+	return ok
+}
+
+// VerifQueryQueue wraps a queryQueue.
+type VerifQueryQueue struct{ q *queryQueue }
+
+// VerifNewQueryQueue calls newQueryQueue.
+func VerifNewQueryQueue() *VerifQueryQueue { return &VerifQueryQueue{newQueryQueue()} }
+
+// Push calls queryQueue.push with a new entry (distance, id, indexCell).
+func (v *VerifQueryQueue) Push(d VerifDist, id CellID, cell *ShapeIndexCell) {
+	v.q.push(&queryQueueEntry{distance: d.d, id: id, indexCell: cell})
+}
+
+// Pop calls queryQueue.pop and returns the fields of the entry.
+func (v *VerifQueryQueue) Pop() (VerifDist, CellID, *ShapeIndexCell) {
+	e := v.q.pop()
+	return VerifDist{e.distance}, e.id, e.indexCell
+}
+
+// Size calls queryQueue.size.
+func (v *VerifQueryQueue) Size() int { return v.q.size() }
+
+// Reset calls queryQueue.reset.
+func (v *VerifQueryQueue) Reset() { v.q.reset() }
+
+// VerifIndexFromCells returns a fresh ShapeIndex without shapes whose index
+// cells are the given (pairwise disjoint) cells, each with an empty
+// ShapeIndexCell.  Only the cell iterator of such an index is meaningful.
+func VerifIndexFromCells(ids []CellID) *ShapeIndex {
+	s := NewShapeIndex()
+	for _, id := range ids {
+		if _, ok := s.cellMap[id]; ok {
+			continue
+		}
+		s.cellMap[id] = NewShapeIndexCell(0)
+		s.cells = append(s.cells, id)
+	}
+	sort.Slice(s.cells, func(i, j int) bool { return s.cells[i] < s.cells[j] })
+	return s
+}
